@@ -4,6 +4,7 @@ import Driver.OpsCaldav
 import Driver.OpsCodec
 import Driver.OpsCond
 import Driver.OpsPath
+import Driver.OpsFs
 namespace Driver
 
 def dispatch (op : String) (args : List SExp) : Option OpResult :=
@@ -39,6 +40,7 @@ def dispatch (op : String) (args : List SExp) : Option OpResult :=
   | "localpath" => opLocalPath args
   | "extpath" => opExtPath args
   | "rtype" => opRType args
+  | "fs.req" => opFsReq args
   | "card.filter" => opCardFilter args
   | _ => none
 
